@@ -253,13 +253,23 @@ async def e2e(net, hyg, plan):
         c = aioftp.Client(path_io_factory=aioftp.MemoryPathIO)
         await c.connect("127.0.0.1", 2121)
         await c.login()
-        await c.make_directory("/dir")
-        for name, (typ, size, mtime) in entries.items():
-            if typ == "dir":
-                await c.make_directory("/dir/" + name)
-            else:
-                async with c.upload_stream("/dir/" + name) as s:
-                    pass
+        if n > 16:
+            # large directories are put into the back end directly
+            from ..spyfs import DIR as _DIR, memory_populate
+            nursery = w.server.path_io_factory
+            if nursery.state is None:
+                nursery(timeout=None, connection=None)
+            spec = {"/dir": _DIR}
+            spec.update({"/dir/" + name: (_DIR if typ == "dir" else b"") for name, (typ, size, mtime) in entries.items()})
+            memory_populate(nursery.state, spec)
+        else:
+            await c.make_directory("/dir")
+            for name, (typ, size, mtime) in entries.items():
+                if typ == "dir":
+                    await c.make_directory("/dir/" + name)
+                else:
+                    async with c.upload_stream("/dir/" + name) as s:
+                        pass
         await c.change_directory(rng.choice(["/", "/dir"]))
 
         def judge(kind, listed, mon_key):
@@ -354,7 +364,7 @@ def gen_cases(tier, seed):
                [(2024, 1, 1, 0), (2024, 2, 29, 12), (2024, 3, 1, 0), (2025, 1, 2, 3), (2025, 3, 1, 1), (2023, 12, 31, 23), (2026, 7, 2, 0), (2030, 6, 15, 12)]]
     plans = []
     for i in range(nd):
-        plans.append({"seed": seed * 7 + i, "n": rng.choice([0, 1, 2, 3, 5, 8, 12]), "fallback": i % 3 == 0,
+        plans.append({"seed": seed * 7 + i, "n": rng.choice([0, 1, 2, 3, 5, 8, 12, 31, 32, 33, 34, 65, 100, 257]), "fallback": i % 3 == 0,
                       "now": rng.choice(special) if i % 2 else rng.randrange(946684800, 2208988800)})
     per = 10
     for j, i in enumerate(range(0, len(plans), per)):
